@@ -39,7 +39,10 @@ class Run:
                                   ("stopnow",)                       stop() arrived while the handler ran: next wait returns at once
     Every stop is followed by start() (restart) if steps remain."""
 
-    def __init__(self, start, period, nlinks):
+    def __init__(self, start, period, nlinks, eager=False):
+        """eager: the extreme schedule in which the new worker thread runs (to the end of the script)
+        BEFORE the caller of start() gets the processor back"""
+        self.eager = eager
         e = env()
         fab = world.new_fabric()
         self.fab = fab
@@ -90,12 +93,25 @@ class Run:
             while True:
                 before = self.pos
                 self.start_times.append(world.clock.ns)
-                self.gen.start()
-                th = self.gen._thread
-                if not th.started:
-                    raise RuntimeError("start() did not start a thread")
-                # a pending ("stopnow",) directly after start would be a stop before the first wait
-                th.run_body()
+                if self.eager:
+                    ran = []
+
+                    def on_start(th):
+                        ran.append(th)
+                        th.run_body()
+                    world.FakeThread.on_start_default = on_start
+                    try:
+                        self.gen.start()
+                    finally:
+                        world.FakeThread.on_start_default = None
+                    if not ran:
+                        raise RuntimeError("start() did not start a thread")
+                else:
+                    self.gen.start()
+                    th = self.gen._thread
+                    if not th.started:
+                        raise RuntimeError("start() did not start a thread")
+                    th.run_body()
                 for d in self.fab.reset_out():
                     self.sent.append((world.clock.ns, d[2], d[3], self.epoch))
                 self.gen.stop()
@@ -151,8 +167,8 @@ def reference(script, T, start, period, nlinks, t0):
     return calls, inds
 
 
-def check_script(script, T, start, period, nlinks):
-    r = Run(start, period, nlinks)
+def check_script(script, T, start, period, nlinks, eager=False):
+    r = Run(start, period, nlinks, eager)
     t0 = world.clock.ns
     r.execute(script)
     if r.exc:
@@ -228,13 +244,15 @@ def work_stop(arg):
             for st in stops:
                 for tail in itertools.product(A[:4] + A[-2:], repeat=2):
                     script = list(body) + [st] + list(tail)
-                    cls, msg, r = check_script(script, T, start, period, nlinks)
-                    cov["scripts"] += 1
-                    cov["ticks"] += len(r.calls)
-                    cov["restarts"] += 1
-                    if cls and len(viol) < 3:
-                        viol.append(("C09:restart:%s" % cls, {"script": script, "T": T, "start": start, "period": period,
-                                                             "links": nlinks}, msg))
+                    for eager in (False, True):
+                        cls, msg, r = check_script(script, T, start, period, nlinks, eager)
+                        cov["scripts"] += 1
+                        cov["ticks"] += len(r.calls)
+                        cov["restarts"] += 1
+                        if cls and len(viol) < 3:
+                            viol.append(("C09:restart:%s%s" % ("worker-first:" if eager else "", cls),
+                                         {"script": script, "T": T, "start": start, "period": period,
+                                          "links": nlinks, "eager": eager}, msg))
     cov["states"] = states
     return {"cov": cov, "viol": viol}
 
@@ -272,7 +290,9 @@ def run(ctx):
     ctx.sample({"script": [["t", T // 2, 0], ["t", (5 * T) // 2, 0], ["t", 0, (3 * T) // 10]], "start": 2715646, "period": 2, "links": 2})
     ctx.assumptions += ["virtual monotonic clock; the worker body runs synchronously under the harness, Event.wait() is the only blocking point",
                         "frame period taken from the first undisturbed interval (must be within 1 us of 4.615 ms), then exact linearity is required",
-                        "states = distinct (frame number, phase offset from the ideal grid) pairs observed"]
+                        "states = distinct (frame number, phase offset from the ideal grid) pairs observed",
+                        "thread start is explored in its two extreme schedules: the caller of start() continues first (default) or the "
+                        "new worker runs first until it stops (stop/restart scripts)"]
 
 
 def replay(ctx, case):
@@ -289,7 +309,9 @@ def replay(ctx, case):
         return
     if abs(T2 - NOMINAL) >= 1000:
         ctx.violation("C09:period", case, "frame period is %d ns" % T2)
-    cls, msg, r = check_script(script, T2, case["start"], case["period"], case["links"])
+    cls, msg, r = check_script(script, T2, case["start"], case["period"], case["links"], case.get("eager", False))
     if cls:
         pfx = "C09:restart:" if any(s[0] == "stopwait" for s in script) else "C09:"
+        if case.get("eager"):
+            pfx += "worker-first:"
         ctx.violation(pfx + cls, case, msg)
